@@ -114,8 +114,11 @@ def shape_strategy(max_turns=3):
     # relative mode), or (polyline/spline only) at X = Y = 0 exactly ("xy0"):
     # exact zeros are falsy, and a target of 0 is as valid as any other
     land = st.sampled_from([None, None, None, None, None, "z0", "z0", "xy0"])
-    return st.tuples(_shape_strategy(max_turns, ang, rad, dz, off, nz), land).map(
-        lambda t: dict(t[0], land=t[1]) if t[1] else t[0])
+    cz = st.sampled_from([None, None, None, 0.0, 5.0, -2.5])
+    return st.tuples(_shape_strategy(max_turns, ang, rad, dz, off, nz), land, cz).map(
+        lambda t: dict(dict(t[0], land=t[1]) if t[1] else t[0],
+                       **({"cz": t[2]} if t[2] is not None and t[0]["shape"] in ("arc", "circle")
+                          else {})))
 
 
 def _shape_strategy(max_turns, ang, rad, dz, off, nz):
@@ -174,6 +177,8 @@ def build_shape(g, d, clockwise=None):
                 zsum = zsum + q[2]
             pts[-1] = (pts[-1][0], pts[-1][1], -zsum)
             d = dict(d, pts=pts, zgiven=True)
+        elif s == "thread" and abs(p[2]) / d["pitch"] > 40:
+            pass        # would mean hundreds of turns: the request keeps its own rise
         else:
             d = dict(d, dz=-p[2], zgiven=True)
     if land == "xy0" and s in ("spline", "polyline"):
@@ -198,7 +203,12 @@ def build_shape(g, d, clockwise=None):
         if d.get("full"):      # target at the start angle: a full turn
             T = (p[0], p[1], p[2] + dz)
             d = dict(d, sweep=2 * math.pi)
-        return ("arc", [_to_mode(g, p, T, n), (c[0] - p[0], c[1] - p[1])], {},
+        cen = (c[0] - p[0], c[1] - p[1])
+        if d.get("cz") is not None:
+            # the centre offset given with a third component (e.g. computed by
+            # point arithmetic): arcs are planar, the component means nothing
+            cen = cen + (float(d["cz"]),)
+        return ("arc", [_to_mode(g, p, T, n), cen], {},
                 {"kind": "arc", "c": c, "r": r, "a0": a0, "sweep": sgn * d["sweep"],
                  "z0": p[2], "dz": dz, "target": T, "start": p})
     if s == "arc_radius":
@@ -215,7 +225,7 @@ def build_shape(g, d, clockwise=None):
     if s == "circle":
         c = (p[0] + d["cx"], p[1] + d["cy"])
         r = math.hypot(d["cx"], d["cy"])
-        return ("circle", [(d["cx"], d["cy"])], {},
+        return ("circle", [(d["cx"], d["cy"]) + ((float(d["cz"]),) if d.get("cz") is not None else ())], {},
                 {"kind": "circle", "c": c, "r": r,
                  "a0": math.atan2(-d["cy"], -d["cx"]), "sweep": sgn * 2 * math.pi,
                  "z0": p[2], "dz": 0.0, "target": p, "start": p})
@@ -291,7 +301,7 @@ def shape_length(info):
     if k in ("arc", "circle"):
         return math.hypot(info["r"] * info["sweep"], info["dz"])
     if k == "arc_radius":
-        return 2 * math.pi * info["R"]
+        return math.hypot(2 * math.pi * info["R"], info["dz"])
     if k == "helix":
         rm = max(info["r0"], info["r1"])
         return math.hypot(rm * abs(info["sweep"]), info["dz"]) + abs(info["r1"] - info["r0"])
